@@ -121,7 +121,7 @@ def all_label_refs():
 def universe(which: str) -> Universe:
     if which == "wide":      # the universe of the task text, complete
         return Universe("wide", ["n1A", "n1B", "n2A", "n2B", "iA", "iB"], all_label_refs(),
-                        edge_ids=["e1", "e2", None], new_edge_ids=["e1", None], ext_max=2,
+                        edge_ids=["e1", "e2"], new_edge_ids=["e1", None], ext_max=2,
                         remove_edges=[["fT:", [], "e1"], ["gN:A", ["n1A"], "e1"], ["fT:", [], "e2"]])
     if which == "deep":      # a sub-universe keeping every confusion (same id/other label, same name/other type or terminality)
         return Universe("deep", ["n1A", "n1B", "n2A", "iA"],
@@ -608,6 +608,7 @@ def _graph_worker(args):
     out_fail, out_succ = [], []
     n = r = 0
     kc: Dict[str, int] = {}
+    local_seen: set = set()
     with warnings.catch_warnings():
         warnings.simplefilter("ignore")
         for idx, h in histories:
@@ -615,9 +616,15 @@ def _graph_worker(args):
             n += t; r += rr
             _cap(out_fail, fails, kc, idx)
             if last:
-                out_succ += [hashlib.blake2b(s.encode(), digest_size=8).digest() for s, _ in succ]
+                for s, _ in succ:
+                    local_seen.add(hashlib.blake2b(s.encode(), digest_size=8).digest())
             else:
-                out_succ += [(s, h + [c]) for s, c in succ]
+                for s, c in succ:
+                    if s not in local_seen:
+                        local_seen.add(s)
+                        out_succ.append((s, h + [c]))
+    if last:
+        out_succ = b"".join(sorted(local_seen))          # one blob of 8-byte digests instead of a list of objects
     return n, r, out_succ, out_fail, kc
 
 
@@ -636,7 +643,7 @@ def bfs_graph(calls, depth, jobs, cls_name="Graph", init_history=None):
     try:
         for d in range(1, depth + 1):
             last = (d == depth)
-            nchunks = max(1, min(len(frontier), jobs * 8))
+            nchunks = max(1, min(len(frontier), jobs * 4))
             fr = list(enumerate(frontier))
             chunks = [fr[i::nchunks] for i in range(nchunks)]
             args = [(ch, calls, cls_name, last) for ch in chunks]
@@ -648,7 +655,7 @@ def bfs_graph(calls, depth, jobs, cls_name="Graph", init_history=None):
                 for k, v in kc.items():
                     keycount[k] = keycount.get(k, 0) + v
                 if last:
-                    last_hashes.update(succ)
+                    last_hashes.update(succ[i:i + 8] for i in range(0, len(succ), 8))
                 else:
                     for s, h in succ:
                         if s not in seen:
@@ -952,6 +959,7 @@ def _hrg_worker(args):
     out_fail, out_succ = [], []
     n = r = 0
     kc: Dict[str, int] = {}
+    local_seen: set = set()
     with warnings.catch_warnings():
         warnings.simplefilter("ignore")
         for idx, h in histories:
@@ -959,9 +967,15 @@ def _hrg_worker(args):
             n += t; r += rr
             _cap(out_fail, fails, kc, idx)
             if last:
-                out_succ += [hashlib.blake2b(s.encode(), digest_size=8).digest() for s, _ in succ]
+                for s, _ in succ:
+                    local_seen.add(hashlib.blake2b(s.encode(), digest_size=8).digest())
             else:
-                out_succ += [(s, h + [c]) for s, c in succ]
+                for s, c in succ:
+                    if s not in local_seen:
+                        local_seen.add(s)
+                        out_succ.append((s, h + [c]))
+    if last:
+        out_succ = b"".join(sorted(local_seen))
     return n, r, out_succ, out_fail, kc
 
 
@@ -977,7 +991,7 @@ def bfs_hrg(ctor, calls, depth, jobs):
     try:
         for d in range(1, depth + 1):
             last = (d == depth)
-            nchunks = max(1, min(len(frontier), jobs * 8))
+            nchunks = max(1, min(len(frontier), jobs * 4))
             fr = list(enumerate(frontier))
             chunks = [fr[i::nchunks] for i in range(nchunks)]
             args = [(ch, calls, last) for ch in chunks]
@@ -989,7 +1003,7 @@ def bfs_hrg(ctor, calls, depth, jobs):
                 for k, v in kc.items():
                     keycount[k] = keycount.get(k, 0) + v
                 if last:
-                    last_hashes.update(succ)
+                    last_hashes.update(succ[i:i + 8] for i in range(0, len(succ), 8))
                 else:
                     for s, h in succ:
                         if s not in seen:
@@ -1202,7 +1216,7 @@ def run_bounded(ctx: Ctx) -> Report:
                 function=f"Graph call histories, universe '{uname}'",
                 bound=f"all call sequences of length <= {depth} over {len(U.calls)} calls/state "
                       f"(nodes {U.nodes}, edge labels {U.labels if uname != 'wide' else 'all 28 = {f,g} x {T,N} x types of arity 0..2 over {A,B}'}, "
-                      f"edge ids e1,e2{'+implicit' if uname == 'wide' else ''})",
+                      f"edge ids e1,e2{' (+implicit via new_edge)' if uname == 'wide' else ''})",
                 cases=stats["transitions"], distinct_nontrivial=stats["distinct_wf_states_expanded"] + stats["distinct_states_at_last_depth"],
                 rule="breadth-first; a case is one (state, call) transition; states deduplicated by canonical form (implicit ids renamed, "
                      "dict order ignored); distinct = distinct canonical well-formed states reached (expanded ones + those at the last depth); "
